@@ -161,8 +161,12 @@ def gen_config(rng, allow_uri_append=False, allow_static_param=True, rsa=None):
     uris = []
     while len(uris) < ndom:
         u = "/" + "/".join(_word(rng, 1, 8) for _ in range(rng.choice([1, 1, 2]))) + rng.choice(["", ".js", ".php", ".gif"])
-        if not any(u.startswith(x) or x.startswith(u) for x in uris):
+        if uris and rng.random() < 0.35:
+            # get URIs may be prefixes of one another (/api and /api/v2): routing is by prefix, uri-append data follows
+            u = rng.choice(uris) + rng.choice(["/", "", "-"]) + _word(rng, 1, 5)
+        if u not in uris:
             uris.append(u)
+    rng.shuffle(uris)
     submit = "/" + _word(rng, 3, 10) + rng.choice([".php", "", "/submit"])
     while any(submit.startswith(u) or u.startswith(submit) for u in uris):
         submit = "/" + _word(rng, 4, 12)
